@@ -185,7 +185,9 @@ pub fn full_actions<S: Sch>() -> Vec<Act> {
     a.push(Act::SetClientInfo("name".into(), "v1.0".into(), Some("build".into())));
     a.push(Act::SetClientInfo("".into(), "".into(), None));
     a.push(Act::SetClientInfo("x".repeat(60), "v".into(), Some("".into())));
-    for (ip, port) in [(v4([10, 0, 0, 1]), 0u16), (v4([10, 0, 0, 1]), 30303), (v6(1), 0), (v6(1), 30303)] {
+    let mapped = IpAddr::V6(Ipv4Addr::new(192, 0, 2, 1).to_ipv6_mapped());
+    a.push(Act::SetIp(mapped));
+    for (ip, port) in [(v4([10, 0, 0, 1]), 0u16), (v4([10, 0, 0, 1]), 30303), (v6(1), 0), (v6(1), 30303), (mapped, 9), (v4([0, 0, 0, 0]), 1)] {
         a.push(Act::SetUdpSocket(SocketAddr::new(ip, port)));
         a.push(Act::SetTcpSocket(SocketAddr::new(ip, port)));
     }
